@@ -9,6 +9,7 @@ import (
 	"os"
 	"sort"
 	"sync"
+	"time"
 )
 
 // Kinds of blocking / synchronisation points (second argument of Pre).
@@ -28,6 +29,7 @@ var (
 	PreHook     func(site int32, kind int) any
 	PostHook    func(h any, site int32)
 	SpawnHook   func(site int32) any
+	TimerHook   func(site int32) any // like SpawnHook, for a function that a timer will start (or never, if stopped)
 	StartHook   func(h any)
 	ExitHook    func(h any, recovered any)
 	PermHook    func(site int32, n int) []int
@@ -461,4 +463,22 @@ func (f *OutFile) Name() string {
 		return "/dev/stderr"
 	}
 	return "/dev/stdout"
+}
+
+// AfterFunc replaces time.AfterFunc: the function still runs in a goroutine of its own when the (fake)
+// clock reaches the deadline, but as a task the scheduler knows about.
+func AfterFunc(d time.Duration, f func(), site int32) *time.Timer {
+	th := TimerHook
+	if th == nil {
+		return time.AfterFunc(d, f)
+	}
+	h := th(site)
+	if h == nil {
+		return time.AfterFunc(d, f)
+	}
+	return time.AfterFunc(d, func() {
+		defer Exit(h)
+		Start(h)
+		f()
+	})
 }
